@@ -338,4 +338,239 @@ theorem ea_kept_node {r : ℝ} (hr : 1 / 500 ≤ r) {i j : ℕ} (hi : i ≤ 2 * 
       linarith [hoff.2]
   · exact ⟨j, hj, rfl, by simpa using hd⟩
 
+/-! ### any hemisphere -/
+
+/-- number of cos θ intervals of width 1 and the largest cos θ of a hemisphere -/
+def hspan : Hemisphere → ℕ
+  | .both => 2
+  | .upper => 1
+  | .lower => 1
+def htop : Hemisphere → ℤ
+  | .both => 1
+  | .upper => 1
+  | .lower => 0
+
+theorem polarCos_eq (h : Hemisphere) : h.polarCos = (htop h, htop h - (hspan h : ℤ)) := by
+  cases h <;> rfl
+
+/-- cos θ of the `i`-th polar line: `top − i/D`, written as an integer over `D` -/
+noncomputable def eaCosLineH (h : Hemisphere) (r : ℝ) (i : ℕ) : ℝ :=
+  (((htop h * (nEA r : ℤ) - (i : ℤ) : ℤ)) : ℝ) / (nEA r : ℝ)
+noncomputable def eaPolLineH (h : Hemisphere) (r : ℝ) (i : ℕ) : ℝ := Real.arccos (eaCosLineH h r i)
+
+theorem eaCosLineH_eq {r : ℝ} (hr : 0 < r) (h : Hemisphere) (i : ℕ) :
+    eaCosLineH h r i = (htop h : ℝ) - (i : ℝ) / (nEA r : ℝ) := by
+  have hD : ((nEA r : ℕ) : ℝ) ≠ 0 := by exact_mod_cast (nEA_pos hr).ne'
+  unfold eaCosLineH; push_cast; field_simp
+
+theorem eaCosLineH_mem {r : ℝ} (hr : 0 < r) (h : Hemisphere) {i : ℕ} (hi : i ≤ hspan h * nEA r) :
+    (htop h : ℝ) - (hspan h : ℝ) ≤ eaCosLineH h r i ∧ eaCosLineH h r i ≤ (htop h : ℝ) := by
+  have hD : (0 : ℝ) < (nEA r : ℝ) := by exact_mod_cast nEA_pos hr
+  rw [eaCosLineH_eq hr]
+  have hi' : (i : ℝ) ≤ (hspan h : ℝ) * (nEA r : ℝ) := by exact_mod_cast hi
+  have h1 : (i : ℝ) / (nEA r : ℝ) ≤ (hspan h : ℝ) := by rw [div_le_iff₀ hD]; exact hi'
+  have h2 : 0 ≤ (i : ℝ) / (nEA r : ℝ) := by positivity
+  constructor <;> linarith
+
+theorem eaCosLineH_mem_unit {r : ℝ} (hr : 0 < r) (h : Hemisphere) {i : ℕ} (hi : i ≤ hspan h * nEA r) :
+    -1 ≤ eaCosLineH h r i ∧ eaCosLineH h r i ≤ 1 := by
+  have := eaCosLineH_mem hr h hi
+  cases h <;> simp only [htop, hspan, Int.cast_one, Int.cast_zero, Nat.cast_ofNat, Nat.cast_one] at this <;>
+    constructor <;> linarith [this.1, this.2]
+
+/-- CLOSED FORM of `_sample_S2_equal_area_coordinates(r, hemisphere)` for every `r > 0` and every hemisphere -/
+theorem eaCoordinates_hemi (r : ℝ) (hr : 0 < r) (h : Hemisphere) :
+    ∃ c, eaCoordinates r h false = .ok c
+      ∧ c.azimuth = (List.range (4 * nEA r)).map (eaAzLine r)
+      ∧ c.polar = (List.range (hspan h * nEA r + 1)).map (eaPolLineH h r) := by
+  have hr0 : ¬ (Scalar.beq r (0 : ℝ) = true) := by simp [hr.ne']
+  have hc : 0 < ⌈90 / r⌉ := Int.ceil_pos.mpr (by positivity)
+  have hDz : ((nEA r : ℕ) : ℤ) = ⌈90 / r⌉ := Int.toNat_of_nonneg hc.le
+  have hDr : ((nEA r : ℕ) : ℝ) = (⌈90 / r⌉ : ℝ) := nEA_cast hr
+  have hDpos : (0 : ℝ) < (⌈90 / r⌉ : ℝ) := by exact_mod_cast hc
+  have hpi := Real.pi_pos
+  have h4 : (2 * Real.pi - 0) / (Real.pi / 2) * (⌈90 / r⌉ : ℝ) = ((4 * ⌈90 / r⌉ : ℤ) : ℝ) := by
+    push_cast; field_simp; ring
+  have hceil : ⌈(2 * Real.pi - 0) / (Real.pi / 2) * (⌈90 / r⌉ : ℝ)⌉ = 4 * ⌈90 / r⌉ := by
+    rw [h4, Int.ceil_intCast]
+  unfold eaCoordinates
+  simp only [ceilInt_real, lit_real, ofInt_real, pi_real, Nat.cast_zero, Nat.cast_ofNat, polarCos_eq,
+    Bool.false_eq_true, if_false]
+  rw [if_neg hr0]
+  simp only [hceil]
+  have hspanpos : 0 ≤ (hspan h : ℤ) := Int.natCast_nonneg _
+  have hpn : ¬ ((htop h - (htop h - (hspan h : ℤ))) * ⌈90 / r⌉ + 1 < 0) := by
+    have : (htop h - (htop h - (hspan h : ℤ))) = (hspan h : ℤ) := by ring
+    rw [this]; nlinarith
+  rw [if_neg (by omega), if_neg hpn]
+  refine ⟨_, rfl, ?_, ?_⟩
+  · have hn : (4 * ⌈90 / r⌉).toNat = 4 * nEA r := by unfold nEA; omega
+    simp only [hn]
+    rw [linspace_real]
+    apply List.map_congr_left
+    intro j _
+    simp only [eaAzLine, linStep, linspaceDiv, sub_zero, zero_add, Bool.false_eq_true, if_false]
+  · have hn : ((htop h - (htop h - (hspan h : ℤ))) * ⌈90 / r⌉ + 1).toNat = hspan h * nEA r + 1 := by
+      have : (htop h - (htop h - (hspan h : ℤ))) = (hspan h : ℤ) := by ring
+      rw [this, ← hDz]
+      have : ((hspan h : ℤ) * (nEA r : ℤ) + 1) = ((hspan h * nEA r + 1 : ℕ) : ℤ) := by push_cast; ring
+      rw [this, Int.toNat_natCast]
+    simp only [hn]
+    rw [linspace_real, List.map_map]
+    apply List.map_congr_left
+    intro i _
+    have hsp : (0 : ℝ) < (hspan h : ℝ) := by cases h <;> simp [hspan]
+    simp only [Function.comp, eaPolLineH, linStep, linspaceDiv, acos_real, if_true, Nat.add_sub_cancel]
+    congr 1
+    rw [eaCosLineH_eq hr]
+    push_cast
+    have hDne : ((nEA r : ℕ) : ℝ) ≠ 0 := by rw [hDr]; exact hDpos.ne'
+    field_simp
+    ring
+
+/-- NODE NEAR EVERY DIRECTION OF THE HEMISPHERE -/
+theorem ea_node_near_hemi {r : ℝ} (hr : 0 < r) (h : Hemisphere) {θ φ : ℝ} (hθ0 : 0 ≤ θ) (hθ1 : θ ≤ Real.pi)
+    (hφ0 : 0 ≤ φ) (hφ1 : φ ≤ 2 * Real.pi)
+    (hlo : (htop h : ℝ) - (hspan h : ℝ) ≤ Real.cos θ) (hhi : Real.cos θ ≤ (htop h : ℝ)) :
+    ∃ i j : ℕ, i ≤ hspan h * nEA r ∧ j < 4 * nEA r ∧
+      Real.cos (Real.pi / (4 * (nEA r : ℝ))) - 1 / (2 * (nEA r : ℝ))
+        ≤ Vec3.dot (sph θ φ) (sph (eaPolLineH h r i) (eaAzLine r j)) := by
+  have hDpos := nEA_pos hr
+  have hD : (0 : ℝ) < (nEA r : ℝ) := by exact_mod_cast hDpos
+  have hsp : 0 < hspan h := by cases h <;> simp [hspan]
+  have hspr : (0 : ℝ) < (hspan h : ℝ) := by exact_mod_cast hsp
+  obtain ⟨i, hi, hdi⟩ := grid_cover (hspan h * nEA r) (Nat.mul_pos hsp hDpos) (hspan h : ℝ) hspr.le
+    ((htop h : ℝ) - Real.cos θ) (by linarith) (by linarith)
+  obtain ⟨j, hj, hdj⟩ := grid_cover (4 * nEA r) (by omega) (2 * Real.pi) (by positivity) φ hφ0 hφ1
+  have hcm := eaCosLineH_mem_unit hr h hi
+  have hcos : Real.cos (eaPolLineH h r i) = eaCosLineH h r i := Real.cos_arccos hcm.1 hcm.2
+  have hstepc : (hspan h : ℝ) / ((hspan h * nEA r : ℕ) : ℝ) = 1 / (nEA r : ℝ) := by
+    push_cast; field_simp
+  have hδ : |Real.cos θ - Real.cos (eaPolLineH h r i)| ≤ 1 / (2 * (nEA r : ℝ)) := by
+    rw [hcos, eaCosLineH_eq hr]
+    have e : Real.cos θ - ((htop h : ℝ) - (i : ℝ) / (nEA r : ℝ))
+        = -(((htop h : ℝ) - Real.cos θ) - (i : ℝ) * ((hspan h : ℝ) / ((hspan h * nEA r : ℕ) : ℝ))) := by
+      rw [hstepc]; ring
+    rw [e, abs_neg]
+    have e2 : (hspan h : ℝ) / ((hspan h * nEA r : ℕ) : ℝ) / 2 = 1 / (2 * (nEA r : ℝ)) := by
+      rw [hstepc]; field_simp
+    rw [← e2]; exact hdi
+  have hstep : 2 * Real.pi / ((4 * nEA r : ℕ) : ℝ) / 2 = Real.pi / (4 * (nEA r : ℝ)) := by
+    push_cast; field_simp
+  have hangpi : Real.pi / (4 * (nEA r : ℝ)) ≤ Real.pi := by
+    rw [div_le_iff₀ (by positivity)]
+    have : (1 : ℝ) ≤ (nEA r : ℝ) := by exact_mod_cast hDpos
+    nlinarith [Real.pi_pos]
+  have hcosΔ : ∀ x : ℝ, |x| ≤ Real.pi / (4 * (nEA r : ℝ)) → Real.cos (Real.pi / (4 * (nEA r : ℝ))) ≤ Real.cos x := by
+    intro x hx
+    rw [← Real.cos_abs x]
+    exact Real.cos_le_cos_of_nonneg_of_le_pi (abs_nonneg _) hangpi hx
+  have hpol0 : 0 ≤ eaPolLineH h r i := Real.arccos_nonneg _
+  have hpol1 : eaPolLineH h r i ≤ Real.pi := Real.arccos_le_pi _
+  rcases Nat.lt_or_ge j (4 * nEA r) with hlt | hge
+  · refine ⟨i, j, hi, hlt, ?_⟩
+    apply sph_dot_ge hθ0 hθ1 hpol0 hpol1 hδ
+    apply hcosΔ
+    rw [← hstep]; exact hdj
+  · have hjN : j = 4 * nEA r := le_antisymm hj hge
+    have hN0 : ((4 * nEA r : ℕ) : ℝ) ≠ 0 := by exact_mod_cast (by omega : 4 * nEA r ≠ 0)
+    have e : ((4 * nEA r : ℕ) : ℝ) * (2 * Real.pi / ((4 * nEA r : ℕ) : ℝ)) = 2 * Real.pi := by field_simp
+    refine ⟨i, 0, hi, by omega, ?_⟩
+    apply sph_dot_ge hθ0 hθ1 hpol0 hpol1 hδ
+    rw [eaAzLine_zero, sub_zero]
+    have hper : Real.cos φ = Real.cos (φ - 2 * Real.pi) := (Real.cos_sub_two_pi φ).symm
+    rw [hper]
+    apply hcosΔ
+    rw [← hstep]
+    have : φ - 2 * Real.pi = φ - (j : ℝ) * (2 * Real.pi / ((4 * nEA r : ℕ) : ℝ)) := by rw [hjN, e]
+    rw [this]; exact hdj
+
+/-- a cos θ value `k/D` other than ±1 is farther from the poles than the `np.isclose` windows (`r ≥ 0.002°`) -/
+theorem arccos_off_pole {r : ℝ} (hr : 1 / 500 ≤ r) {x : ℝ} (hx1 : -1 + 1 / (nEA r : ℝ) ≤ x) (hx2 : x ≤ 1 - 1 / (nEA r : ℝ)) :
+    1 / 10 ^ 8 + 1 / 10 ^ 5 * Real.pi < Real.arccos x ∧ Real.arccos x < Real.pi - (1 / 10 ^ 8 + 1 / 10 ^ 5 * Real.pi) := by
+  have hr0 : 0 < r := by linarith
+  have hD : (0 : ℝ) < (nEA r : ℝ) := by exact_mod_cast nEA_pos hr0
+  have hDle : ((nEA r : ℕ) : ℝ) < 45001 := by
+    rw [nEA_cast hr0]
+    have h1 : (⌈90 / r⌉ : ℝ) < 90 / r + 1 := Int.ceil_lt_add_one _
+    have h2 : 90 / r ≤ 45000 := by rw [div_le_iff₀ hr0]; linarith
+    linarith
+  have hpi3 := Real.two_le_pi
+  have hpi4 := Real.pi_le_four
+  set ε : ℝ := 1 / 10 ^ 8 + 1 / 10 ^ 5 * Real.pi with hε
+  have hε0 : 0 < ε := by positivity
+  have hε1 : ε < 1 / 10 ^ 4 := by rw [hε]; nlinarith
+  have hεpi : ε ≤ Real.pi := by linarith
+  have hcosε : 1 - 1 / (nEA r : ℝ) < Real.cos ε := by
+    have h1 := Real.one_sub_sq_div_two_le_cos (x := ε)
+    have h2 : ε ^ 2 / 2 < 1 / (nEA r : ℝ) := by
+      rw [lt_div_iff₀ hD]
+      have : ε ^ 2 / 2 < 1 / 10 ^ 8 / 2 := by
+        apply div_lt_div_of_pos_right _ (by norm_num)
+        calc ε ^ 2 < (1 / 10 ^ 4) ^ 2 := pow_lt_pow_left₀ hε1 hε0.le (by norm_num)
+          _ = 1 / 10 ^ 8 := by norm_num
+      nlinarith
+    linarith
+  have hD1 : 1 / (nEA r : ℝ) ≤ 1 := by
+    rw [div_le_iff₀ hD]
+    have : (1 : ℝ) ≤ (nEA r : ℝ) := by exact_mod_cast nEA_pos hr0
+    linarith
+  have hxm : -1 ≤ x ∧ x ≤ 1 := ⟨by linarith [div_pos one_pos hD], by linarith [div_pos one_pos hD]⟩
+  constructor
+  · have hx : x < Real.cos ε := by linarith
+    have hlt : Real.arccos (Real.cos ε) < Real.arccos x := Real.arccos_lt_arccos hxm.1 hx (Real.cos_le_one _)
+    rwa [Real.arccos_cos hε0.le hεpi] at hlt
+  · have hx : Real.cos (Real.pi - ε) < x := by rw [Real.cos_pi_sub]; linarith
+    have hlt : Real.arccos x < Real.arccos (Real.cos (Real.pi - ε)) :=
+      Real.arccos_lt_arccos (Real.neg_one_le_cos _) hx hxm.2
+    rwa [Real.arccos_cos (by linarith) (by linarith)] at hlt
+
+/-- POLE DUPLICATES LOSE NOTHING, any hemisphere -/
+theorem ea_kept_node_hemi {r : ℝ} (hr : 1 / 500 ≤ r) (h : Hemisphere) {i j : ℕ} (hi : i ≤ hspan h * nEA r)
+    (hj : j < 4 * nEA r) :
+    ∃ j', j' < 4 * nEA r ∧ sph (eaPolLineH h r i) (eaAzLine r j') = sph (eaPolLineH h r i) (eaAzLine r j)
+      ∧ poleDuplicate (eaAzLine r j', eaPolLineH h r i) = false := by
+  have hr0 : 0 < r := by linarith
+  have hDpos := nEA_pos hr0
+  have hD : (0 : ℝ) < (nEA r : ℝ) := by exact_mod_cast hDpos
+  by_cases hd : poleDuplicate (eaAzLine r j, eaPolLineH h r i) = true
+  · have hkeep0 : poleDuplicate (eaAzLine r 0, eaPolLineH h r i) = false := by
+      rw [Bool.eq_false_iff, Ne, poleDuplicate_real, eaAzLine_zero]
+      intro h; exact lt_irrefl _ h.1
+    rw [poleDuplicate_real] at hd
+    have hpi := Real.pi_pos
+    have hpol0 : 0 ≤ eaPolLineH h r i := Real.arccos_nonneg _
+    have hpol1 : eaPolLineH h r i ≤ Real.pi := Real.arccos_le_pi _
+    refine ⟨0, by omega, ?_, hkeep0⟩
+    -- the integer numerator of the cos θ line
+    set k : ℤ := htop h * (nEA r : ℤ) - (i : ℤ) with hk
+    have hx : eaCosLineH h r i = (k : ℝ) / (nEA r : ℝ) := rfl
+    have hkb : -(nEA r : ℤ) ≤ k ∧ k ≤ (nEA r : ℤ) := by
+      have hi' : (i : ℤ) ≤ (hspan h : ℤ) * (nEA r : ℤ) := by exact_mod_cast hi
+      cases h <;> simp only [htop, hspan, Nat.cast_ofNat, Nat.cast_one] at hk hi' <;> constructor <;> omega
+    by_cases hk1 : k = (nEA r : ℤ)
+    · have : eaCosLineH h r i = 1 := by rw [hx, hk1]; push_cast; field_simp
+      rw [eaPolLineH, this, Real.arccos_one]; exact sph_zero _ _
+    by_cases hk2 : k = -(nEA r : ℤ)
+    · have : eaCosLineH h r i = -1 := by rw [hx, hk2]; push_cast; field_simp
+      rw [eaPolLineH, this, Real.arccos_neg_one]; exact sph_pi _ _
+    exfalso
+    have hk3 : -(nEA r : ℤ) + 1 ≤ k ∧ k ≤ (nEA r : ℤ) - 1 := by omega
+    have hk3r : -((nEA r : ℕ) : ℝ) + 1 ≤ (k : ℝ) ∧ (k : ℝ) ≤ ((nEA r : ℕ) : ℝ) - 1 := by
+      constructor
+      · exact_mod_cast hk3.1
+      · exact_mod_cast hk3.2
+    have hoff := arccos_off_pole hr (x := eaCosLineH h r i)
+      (by rw [hx, le_div_iff₀ hD]; field_simp; linarith [hk3r.1])
+      (by rw [hx, div_le_iff₀ hD]; field_simp; linarith [hk3r.2])
+    rcases hd.2 with h0 | hπ
+    · rw [sub_zero, abs_of_nonneg hpol0, abs_zero, mul_zero, add_zero] at h0
+      have : (0 : ℝ) ≤ 1 / 10 ^ 5 * Real.pi := by positivity
+      unfold eaPolLineH at h0
+      linarith [hoff.1]
+    · rw [abs_sub_comm, abs_of_nonneg (by linarith), abs_of_pos hpi] at hπ
+      unfold eaPolLineH at hπ
+      linarith [hoff.2]
+  · exact ⟨j, hj, rfl, by simpa using hd⟩
+
 end Orix.SamplingLemmas
